@@ -223,7 +223,7 @@ PROPS = {
         "design_ref": "DESIGN.md section 5, C09",
     },
     "C10": {
-        "modules": ["Qvnt.Props.C10", "Qvnt.Props.Code.C11"],
+        "modules": ["Qvnt.Props.C10", "Qvnt.Props.Code.C11", "Qvnt.Props.Code.C10"],
         "tie": [tie3(r"int_process_(apply_gate|gate|if|node|nodes|node_apply)_eq|int_(ast_changes|add_ast|new)_eq|processNode_inv|processApply_macros|foldlM_process|regsOf_eq|argsOf_eq|macro_process(_nested)?_eq|macro_argument_name_eq|macro_new_eq", r"UNSUPPORTED (mod\.rs: qasm/int/mod\.rs::(process_(apply_gate|gate|if|node|nodes)|ast_changes|add_ast|new):|macros\.rs)"), tiec(r"parse_\w+"), tie2(r"extop_(push|append)_eq|sym_(finish|step|reset|new|get_class|get_probabilities)_eq|finish_as_foldlM", r"UNSUPPORTED (ext_op\.rs|sym\.rs)", creg=True), tie3(r"int_get_[qc]_idx_eq|fold_idx_eq|int_branch(_with_id)?_eq|int_process_(qreg|creg|barrier|opaque)_eq", r"UNSUPPORTED mod\.rs: qasm/int/mod\.rs::(get_idx_by_alias|get_[qc]_idx_with_context|branch|branch_with_id|process_(qreg|creg|barrier|opaque)):")],
         "suites": [suite("int", dict(count=500), dict(count=15000)), suite("c10e", dict(count=300), dict(count=6000)),
                    suite("c10f", dict(count=400), dict(count=12000)), suite("c17", dict(count=150), dict(count=3000))],
